@@ -1,18 +1,25 @@
 // Package sdfgen translates the distance-function code of sdf/sdf2.go, sdf/sdf3.go,
-// sdf/utils.go and the vector methods of vec/v2/v2.go, vec/v3/v3.go from the Go AST of the
-// CURRENT source tree into Gallina over the Ops record (coq/Generated/SdfExpr.v).
+// sdf/utils.go, the box algebra of sdf/box2.go, sdf/box3.go, M33/M44.MulBox of sdf/matrix.go and
+// the vector methods of vec/v2/v2.go, vec/v3/v3.go from the Go AST of the CURRENT source tree
+// into Gallina over the Ops record (coq/Generated/SdfExpr.v).
 // coq/Sdf/GenEq.v proves each generated definition equal to the hand-written model function
 // for all arguments, so an edit that changes what one of these Go functions computes breaks
 // a named proof obligation (Props/TRANSL.v) and not only a sampled comparison.
 //
-// Statement language: `x := e`, `x = e`, `x op= e`, `var x float64`, if/else blocks that only
-// assign outer variables (-> `let x := if c then .. else ..`), `if c { return e }` chains,
-// `return e`, `return func(..) .. {..}` (closures).  Expressions: + - * /, unary minus,
-// comparisons, && || !, exact literals, named constants, vector fields, v2.Vec{..}/v3.Vec{..},
+// Statement language: `x := e`, `x = e`, `x op= e`, `a, b = e1, e2`, `var x float64`, if/else
+// blocks that only assign outer variables (-> `let x := if c then .. else ..`), `if c { return e }`
+// chains, `return e`, `return func(..) .. {..}` (closures).
+// Expressions: + - * /, unary minus, comparisons, && || !, exact literals, named constants,
+// vector/box fields, v2.Vec{..}/v3.Vec{..}/Box2{..}/Box3{..}/[]v2.Vec{..}, a[i] on matrices,
 // math.Abs/Max/Min/Sqrt/Floor/Ceil/Sin/Cos/Tan/Atan/Atan2/Acos/Mod, calls of other translated
-// functions and vector methods (translated themselves, on demand), receiver fields s.f (they
-// become parameters s_f of the definition), wrapped SDFs and function-valued fields as opaque
-// function parameters.  Anything else inside a target function is an error (= broken tie).
+// functions and vector/box methods (translated themselves, on demand), receiver fields s.f
+// (they become parameters s_f of the definition), wrapped SDFs and function-valued fields as
+// opaque function parameters.
+// Constructors (functions returning SDF2/SDF3, with or without an error): `s := T{}` /
+// `s := T{f: e}`, `s.f = e` (-> `let s_f := e`), `return nil, err` (-> None), `return &s, nil`
+// (-> Some (T.Evaluate applied to the fields, T.BoundingBox applied to the fields)); a wrapped
+// SDF argument is a pair of parameters (its Evaluate, its BoundingBox) and is assumed non-nil.
+// Anything else inside a target function is an error (= broken tie), never skipped.
 package sdfgen
 
 import (
@@ -37,6 +44,8 @@ type Target struct{ Pkg, Key string }
 var vecMethods = []string{"Add", "Sub", "Mul", "Div", "Neg", "Abs", "MulScalar", "DivScalar", "AddScalar",
 	"SubScalar", "Min", "Max", "Dot", "Cross", "Length2", "Length", "Normalize", "MinComponent", "MaxComponent", "Clamp"}
 
+var boxMethods = []string{"Extend", "Include", "Translate", "Size", "Center", "ScaleAboutCenter", "Enlarge", "Contains", "Vertices"}
+
 // Targets lists every function translated (callees are pulled in on demand).
 func Targets() []Target {
 	var ts []Target
@@ -45,19 +54,32 @@ func Targets() []Target {
 			ts = append(ts, Target{p, "Vec." + m})
 		}
 	}
+	for _, b := range []string{"Box2", "Box3"} {
+		ts = append(ts, Target{"sdf", "New" + b})
+		for _, m := range boxMethods {
+			ts = append(ts, Target{"sdf", b + "." + m})
+		}
+	}
 	for _, k := range []string{
+		// matrix.go (the rest of the file is translated by harness/exprgen)
+		"M33.MulBox", "M44.MulBox",
 		// utils.go
 		"Clamp", "Mix", "Sign", "SawTooth", "poly", "RoundMin", "ChamferMin", "PolyMin", "PolyMax",
 		"NormalExtrude", "TwistExtrude", "ScaleExtrude", "ScaleTwistExtrude",
-		// sdf2.go
+		// sdf2.go: Evaluate methods
 		"sdfBox2d", "CircleSDF2.Evaluate", "BoxSDF2.Evaluate", "LineSDF2.Evaluate", "OffsetSDF2.Evaluate",
 		"IntersectionSDF2.Evaluate", "DifferenceSDF2.Evaluate", "CutSDF2.Evaluate", "TransformSDF2.Evaluate",
 		"ScaleUniformSDF2.Evaluate", "ElongateSDF2.Evaluate",
-		// sdf3.go
+		// sdf3.go: Evaluate methods
 		"sdfBox3d", "SphereSDF3.Evaluate", "BoxSDF3.Evaluate", "CylinderSDF3.Evaluate", "ConeSDF3.Evaluate",
 		"SorSDF3.Evaluate", "ExtrudeSDF3.Evaluate", "ExtrudeRoundedSDF3.Evaluate", "LoftSDF3.Evaluate",
 		"TransformSDF3.Evaluate", "ScaleUniformSDF3.Evaluate", "DifferenceSDF3.Evaluate", "IntersectionSDF3.Evaluate",
 		"ElongateSDF3.Evaluate", "CutSDF3.Evaluate", "OffsetSDF3.Evaluate", "ShellSDF3.Evaluate",
+		// constructors (loop-free ones)
+		"Circle2D", "Box2D", "Line2D", "Offset2D", "Intersect2D", "Difference2D", "Cut2D", "Transform2D",
+		"ScaleUniform2D", "Elongate2D",
+		"Sphere3D", "Box3D", "Cylinder3D", "Capsule3D", "Cone3D", "Extrude3D", "ScaleExtrude3D", "ExtrudeRounded3D", "Loft3D",
+		"Transform3D", "ScaleUniform3D", "Difference3D", "Intersect3D", "Cut3D", "Elongate3D", "Offset3D", "Shell3D",
 	} {
 		ts = append(ts, Target{"sdf", k})
 	}
@@ -82,15 +104,19 @@ const (
 	kM22
 	kM33
 	kM44
+	kBox2
+	kBox3
 	kBool
-	kFn
+	kList   // args[0] = element
+	kFn     // args -> ret
+	kObjOpt // result of a constructor: option (Evaluate, BoundingBox); args[0] = point type
 )
 
 type typ struct {
 	k     kind
 	args  []typ
 	ret   *typ
-	iface bool // an SDF2/SDF3 interface value: called through .Evaluate
+	iface bool // an SDF2/SDF3 interface value: Evaluate is the function, BoundingBox travels beside it
 }
 
 var (
@@ -100,10 +126,23 @@ var (
 	tM22  = typ{k: kM22}
 	tM33  = typ{k: kM33}
 	tM44  = typ{k: kM44}
+	tBox2 = typ{k: kBox2}
+	tBox3 = typ{k: kBox3}
 	tBool = typ{k: kBool}
 )
 
 func fnType(ret typ, args ...typ) typ { return typ{k: kFn, args: args, ret: &ret} }
+func listType(el typ) typ             { return typ{k: kList, args: []typ{el}} }
+func ifaceType(pt typ) typ            { t := fnType(tT, pt); t.iface = true; return t }
+func objOptType(pt typ) typ           { return typ{k: kObjOpt, args: []typ{pt}} }
+
+// the bounding-box type that goes with a point type
+func boxOf(pt typ) typ {
+	if pt.k == kV2 {
+		return tBox2
+	}
+	return tBox3
+}
 
 func (t typ) coq() string {
 	switch t.k {
@@ -115,8 +154,16 @@ func (t typ) coq() string {
 		return "V3 O"
 	case kM22, kM33, kM44:
 		return "list (T O)"
+	case kBox2:
+		return "Box2 O"
+	case kBox3:
+		return "Box3 O"
 	case kBool:
 		return "bool"
+	case kList:
+		return "list (" + t.args[0].coq() + ")"
+	case kObjOpt:
+		return "option ((" + t.args[0].coq() + " -> T O) * " + boxOf(t.args[0]).coq() + ")"
 	}
 	var ps []string
 	for _, a := range t.args {
@@ -143,8 +190,19 @@ func (t typ) goName() string {
 		return "M33"
 	case kM44:
 		return "M44"
+	case kBox2:
+		return "Box2"
+	case kBox3:
+		return "Box3"
 	case kBool:
 		return "bool"
+	case kList:
+		return "[]" + t.args[0].goName()
+	case kObjOpt:
+		return "SDF" + map[kind]string{kV2: "2", kV3: "3"}[t.args[0].k] + " (constructor result)"
+	}
+	if t.iface {
+		return "SDF" + map[kind]string{kV2: "2", kV3: "3"}[t.args[0].k]
 	}
 	return "func " + t.coq()
 }
@@ -153,13 +211,13 @@ func (t typ) eq(u typ) bool {
 	if t.k != u.k || len(t.args) != len(u.args) {
 		return false
 	}
-	if t.k == kFn {
-		for i := range t.args {
-			if !t.args[i].eq(u.args[i]) {
-				return false
-			}
+	for i := range t.args {
+		if !t.args[i].eq(u.args[i]) {
+			return false
 		}
-		return t.ret.eq(*u.ret)
+	}
+	if t.k == kFn {
+		return t.iface == u.iface && t.ret.eq(*u.ret)
 	}
 	return true
 }
@@ -182,6 +240,7 @@ type pkg struct {
 	fileOf  map[string]*srcFile // key of func / const / type -> file
 	structs map[string]*ast.StructType
 	ftypes  map[string]*ast.FuncType
+	atypes  map[string]*ast.ArrayType
 	ifaces  map[string]bool
 	consts  map[string]ast.Expr
 }
@@ -203,8 +262,8 @@ func recvTypeName(fd *ast.FuncDecl) (string, bool) {
 
 func loadPkg(fset *token.FileSet, repo, name, path string, rels ...string) (*pkg, error) {
 	p := &pkg{name: name, path: path, funcs: map[string]*ast.FuncDecl{}, fileOf: map[string]*srcFile{},
-		structs: map[string]*ast.StructType{}, ftypes: map[string]*ast.FuncType{}, ifaces: map[string]bool{},
-		consts: map[string]ast.Expr{}}
+		structs: map[string]*ast.StructType{}, ftypes: map[string]*ast.FuncType{}, atypes: map[string]*ast.ArrayType{},
+		ifaces: map[string]bool{}, consts: map[string]ast.Expr{}}
 	for _, rel := range rels {
 		f, err := parser.ParseFile(fset, filepath.Join(repo, rel), nil, 0)
 		if err != nil {
@@ -243,6 +302,8 @@ func loadPkg(fset *token.FileSet, repo, name, path string, rels ...string) (*pkg
 							p.structs[s.Name.Name] = tt
 						case *ast.FuncType:
 							p.ftypes[s.Name.Name] = tt
+						case *ast.ArrayType:
+							p.atypes[s.Name.Name] = tt
 						case *ast.InterfaceType:
 							p.ifaces[s.Name.Name] = true
 						}
@@ -277,7 +338,8 @@ type Def struct {
 	Ret      string
 	text     string
 	ret      typ
-	params   []typ
+	params   []typ    // Go-level parameters after the receiver fields (an SDF parameter is one entry, two binders)
+	fields   []string // receiver fields that became the leading parameters
 	isConst  bool
 }
 
@@ -299,7 +361,8 @@ func defName(p, key string) string { return p + "_" + strings.ReplaceAll(key, ".
 var reserved = map[string]bool{}
 
 func init() {
-	for _, w := range strings.Fields(`O T V2 V3 mkV2 mkV3 vx vy wx wy wz o0 o1 two half cst sq ofZ negb andb orb bool list nth
+	for _, w := range strings.Fields(`O T V2 V3 Box2 Box3 mkV2 mkV3 mkBox2 mkBox3 vx vy wx wy wz b2min b2max b3min b3max
+		o0 o1 two half cst sq ofZ negb andb orb bool list nth option Some None fst snd
 		oadd osub omul odiv oneg oabs osqrt oltb oleb oeqb omin omax otoZ ofloor oceil ofmod osin ocos otan oatan oatan2 oacos
 		opi omaxf true false
 		as at cofix else end exists exists2 fix for forall fun if IF in let match mod Prop return Set then Type using where with
@@ -309,9 +372,7 @@ func init() {
 }
 
 func coqIdent(name string) string {
-	if reserved[name] || strings.HasPrefix(name, "s_") || strings.HasPrefix(name, "sdf_") ||
-		strings.HasPrefix(name, "v2_") || strings.HasPrefix(name, "v3_") || strings.HasPrefix(name, "mk_") ||
-		strings.HasPrefix(name, "m22_") || strings.HasPrefix(name, "m33_") || strings.HasPrefix(name, "m44_") {
+	if reserved[name] || strings.Contains(name, "_") {
 		return name + "_"
 	}
 	return name
@@ -384,7 +445,11 @@ func ratCoq(r *big.Rat) (string, error) {
 type binding struct {
 	coq  string
 	t    typ
-	zero bool // declared with `var x float64`, not assigned yet
+	zero bool   // declared with `var x float64`, not assigned yet
+	bb   string // an SDF value: the Gallina name of its bounding box
+	// a struct under construction (`s := T{}`): the current value of each field
+	structName string
+	fields     map[string]*binding
 }
 
 type env map[string]*binding
@@ -393,6 +458,13 @@ func (e env) clone() env {
 	c := env{}
 	for k, v := range e {
 		b := *v
+		if v.fields != nil {
+			b.fields = map[string]*binding{}
+			for fk, fv := range v.fields {
+				fb := *fv
+				b.fields[fk] = &fb
+			}
+		}
 		c[k] = &b
 	}
 	return c
@@ -414,6 +486,7 @@ type val struct {
 	t     typ
 	konst bool     // a Go constant expression
 	rat   *big.Rat // its exact value when known
+	bb    string   // SDF value: its bounding box
 }
 
 func (f *fctx) errf(n ast.Node, format string, a ...interface{}) error {
@@ -442,15 +515,44 @@ func (g *gen) goType(p *pkg, sf *srcFile, e ast.Expr) (typ, error) {
 		}
 	case *ast.FuncType:
 		return g.funcType(p, sf, x)
+	case *ast.ArrayType:
+		if x.Len == nil {
+			el, err := g.goType(p, sf, x.Elt)
+			if err != nil {
+				return typ{}, err
+			}
+			return listType(el), nil
+		}
 	}
 	return typ{}, fmt.Errorf("unsupported type %s", exprString(e))
+}
+
+// a struct {Min, Max <vec>}: positional literals Box{a, b} mean Min = a, Max = b
+func isMinMax(st *ast.StructType) bool {
+	var names []string
+	for _, fl := range st.Fields.List {
+		for _, n := range fl.Names {
+			names = append(names, n.Name)
+		}
+	}
+	return len(names) == 2 && names[0] == "Min" && names[1] == "Max"
 }
 
 func (g *gen) namedType(p *pkg, name string) (typ, error) {
 	switch {
 	case (p.name == "v2" || p.name == "v3") && name == "Vec":
-		if _, ok := p.structs["Vec"]; !ok {
-			return typ{}, fmt.Errorf("%s.Vec is not a struct any more", p.name)
+		st, ok := p.structs["Vec"]
+		want := map[string]string{"v2": "X Y", "v3": "X Y Z"}[p.name]
+		var names []string
+		if ok {
+			for _, fl := range st.Fields.List {
+				for _, n := range fl.Names {
+					names = append(names, n.Name)
+				}
+			}
+		}
+		if strings.Join(names, " ") != want {
+			return typ{}, fmt.Errorf("%s.Vec is not struct{%s float64} any more", p.name, want)
 		}
 		if p.name == "v2" {
 			return tV2, nil
@@ -462,17 +564,25 @@ func (g *gen) namedType(p *pkg, name string) (typ, error) {
 		return tM33, nil
 	case p.name == "sdf" && name == "M44":
 		return tM44, nil
+	case p.name == "sdf" && (name == "Box2" || name == "Box3"):
+		st, ok := p.structs[name]
+		if !ok || !isMinMax(st) {
+			return typ{}, fmt.Errorf("sdf.%s is not struct{Min, Max} any more", name)
+		}
+		if name == "Box2" {
+			return tBox2, nil
+		}
+		return tBox3, nil
 	case p.name == "sdf" && name == "SDF2" && p.ifaces[name]:
-		t := fnType(tT, tV2)
-		t.iface = true
-		return t, nil
+		return ifaceType(tV2), nil
 	case p.name == "sdf" && name == "SDF3" && p.ifaces[name]:
-		t := fnType(tT, tV3)
-		t.iface = true
-		return t, nil
+		return ifaceType(tV3), nil
 	}
 	if ft, ok := p.ftypes[name]; ok {
 		return g.funcType(p, p.fileOf[name], ft)
+	}
+	if at, ok := p.atypes[name]; ok {
+		return g.goType(p, p.fileOf[name], at)
 	}
 	return typ{}, fmt.Errorf("unsupported type %s.%s", p.name, name)
 }
@@ -545,6 +655,15 @@ func (f *fctx) importOf(id *ast.Ident, e env) (string, bool) {
 	return ip, ok
 }
 
+func isNil(x ast.Expr, e env) bool {
+	id, ok := x.(*ast.Ident)
+	if !ok || id.Name != "nil" {
+		return false
+	}
+	_, shadow := e["nil"]
+	return !shadow
+}
+
 func (f *fctx) binary(n ast.Node, op token.Token, a, b val) (val, error) {
 	if sym, ok := arith[op]; ok {
 		if a.t.k != kT || b.t.k != kT {
@@ -598,34 +717,67 @@ func (f *fctx) binary(n ast.Node, op token.Token, a, b val) (val, error) {
 func (f *fctx) field(n ast.Node, x val, name string) (val, error) {
 	var ok bool
 	var acc string
+	rt := tT
 	switch x.t.k {
 	case kV2:
 		acc, ok = map[string]string{"X": "vx", "Y": "vy"}[name]
 	case kV3:
 		acc, ok = map[string]string{"X": "wx", "Y": "wy", "Z": "wz"}[name]
+	case kBox2:
+		acc, ok = map[string]string{"Min": "b2min", "Max": "b2max"}[name]
+		rt = tV2
+	case kBox3:
+		acc, ok = map[string]string{"Min": "b3min", "Max": "b3max"}[name]
+		rt = tV3
 	}
 	if !ok {
 		return val{}, f.errf(n, "field .%s of %s", name, x.t.goName())
 	}
-	return val{s: "(" + acc + " " + x.s + ")", t: tT}, nil
+	return val{s: "(" + acc + " " + x.s + ")", t: rt}, nil
+}
+
+func (g *gen) structField(p *pkg, sname, name string) (typ, bool, error) {
+	st := p.structs[sname]
+	if st == nil {
+		return typ{}, false, nil
+	}
+	for _, fl := range st.Fields.List {
+		for _, fn := range fl.Names {
+			if fn.Name == name {
+				t, err := g.goType(p, p.fileOf[sname], fl.Type)
+				return t, true, err
+			}
+		}
+	}
+	return typ{}, false, nil
 }
 
 // receiver field s.name -> parameter s_name
 func (f *fctx) recvField(n ast.Node, name string) (val, error) {
-	st := f.p.structs[f.recvStruct]
-	for _, fl := range st.Fields.List {
-		for _, fn := range fl.Names {
-			if fn.Name == name {
-				t, err := f.g.goType(f.p, f.p.fileOf[f.recvStruct], fl.Type)
-				if err != nil {
-					return val{}, f.errf(n, "field %s.%s: %v", f.recvStruct, name, err)
-				}
-				f.used[name] = t
-				return val{s: "s_" + name, t: t}, nil
-			}
-		}
+	t, ok, err := f.g.structField(f.p, f.recvStruct, name)
+	if err != nil {
+		return val{}, f.errf(n, "field %s.%s: %v", f.recvStruct, name, err)
 	}
-	return val{}, f.errf(n, "%s has no field %s", f.recvStruct, name)
+	if !ok {
+		return val{}, f.errf(n, "%s has no field %s", f.recvStruct, name)
+	}
+	f.used[name] = t
+	return val{s: "s_" + name, t: t}, nil
+}
+
+// field of a struct under construction: its current value
+func (f *fctx) builtField(n ast.Node, b *binding, goVar, name string) (val, error) {
+	t, ok, err := f.g.structField(f.p, b.structName, name)
+	if err != nil || !ok {
+		return val{}, f.errf(n, "field %s.%s: %v", b.structName, name, err)
+	}
+	if fb, ok := b.fields[name]; ok {
+		return val{s: fb.coq, t: fb.t, bb: fb.bb}, nil
+	}
+	if t.k == kT {
+		return val{s: "(o0 O)", t: tT}, nil // zero value
+	}
+	return val{}, f.errf(n, "field %s.%s is read before it is assigned", goVar, name)
 }
 
 func (f *fctx) args(n ast.Node, what string, want []typ, as []ast.Expr, e env) ([]string, error) {
@@ -642,6 +794,12 @@ func (f *fctx) args(n ast.Node, what string, want []typ, as []ast.Expr, e env) (
 			return nil, f.errf(a, "%s: argument %d has type %s, expected %s", what, i+1, v.t.goName(), want[i].goName())
 		}
 		out = append(out, v.s)
+		if want[i].iface {
+			if v.bb == "" {
+				return nil, f.errf(a, "%s: the bounding box of SDF argument %d is not known here", what, i+1)
+			}
+			out = append(out, v.bb)
+		}
 	}
 	return out, nil
 }
@@ -669,6 +827,9 @@ func (f *fctx) callDef(n ast.Node, q *pkg, key string, recv *val, as []ast.Expr,
 	d, err := f.g.translate(q, key)
 	if err != nil {
 		return val{}, err
+	}
+	if len(d.fields) != 0 {
+		return val{}, f.errf(n, "call of %s, a method using receiver fields", key)
 	}
 	want := d.params
 	var pre []string
@@ -725,18 +886,18 @@ func (f *fctx) call(x *ast.CallExpr, e env) (val, error) {
 				}
 				return val{}, f.errf(x, "call into package %s", ip)
 			}
-		}
-		if id, ok := fn.X.(*ast.Ident); ok && id.Name == f.recv && f.recv != "" {
-			if _, shadow := e[id.Name]; !shadow {
-				// s.extrude(p), s.max(a, b): a function-valued receiver field
-				fv, err := f.recvField(x, fn.Sel.Name)
-				if err != nil {
-					return val{}, f.errf(x, "call of method %s on the receiver", fn.Sel.Name)
+			if id.Name == f.recv && f.recv != "" {
+				if _, shadow := e[id.Name]; !shadow {
+					// s.extrude(p), s.max(a, b): a function-valued receiver field
+					fv, err := f.recvField(x, fn.Sel.Name)
+					if err != nil {
+						return val{}, f.errf(x, "call of method %s on the receiver", fn.Sel.Name)
+					}
+					if fv.t.k != kFn || fv.t.iface {
+						return val{}, f.errf(x, "call of field %s, which is not a function value", fn.Sel.Name)
+					}
+					return applyFn(fv, exprString(x.Fun))
 				}
-				if fv.t.k != kFn || fv.t.iface {
-					return val{}, f.errf(x, "call of field %s, which is not a function value", fn.Sel.Name)
-				}
-				return applyFn(fv, exprString(x.Fun))
 			}
 		}
 		recv, err := f.expr(fn.X, e)
@@ -745,23 +906,99 @@ func (f *fctx) call(x *ast.CallExpr, e env) (val, error) {
 		}
 		switch recv.t.k {
 		case kFn:
-			if recv.t.iface {
-				if fn.Sel.Name != "Evaluate" {
-					return val{}, f.errf(x, "method %s of a wrapped SDF (only Evaluate is a function parameter)", fn.Sel.Name)
-				}
-				return applyFn(recv, exprString(fn.X)+".Evaluate")
+			if !recv.t.iface {
+				return val{}, f.errf(x, "method %s on a function value", fn.Sel.Name)
 			}
-			return val{}, f.errf(x, "method %s on a function value", fn.Sel.Name)
+			switch fn.Sel.Name {
+			case "Evaluate":
+				return applyFn(recv, exprString(fn.X)+".Evaluate")
+			case "BoundingBox":
+				if len(x.Args) != 0 {
+					return val{}, f.errf(x, "BoundingBox with arguments")
+				}
+				if recv.bb == "" {
+					return val{}, f.errf(x, "the bounding box of %s is not a parameter here", exprString(fn.X))
+				}
+				return val{s: recv.bb, t: boxOf(recv.t.args[0])}, nil
+			}
+			return val{}, f.errf(x, "method %s of a wrapped SDF", fn.Sel.Name)
 		case kV2:
 			return f.callDef(x, f.g.pkgs["v2"], "Vec."+fn.Sel.Name, &recv, x.Args, e)
 		case kV3:
 			return f.callDef(x, f.g.pkgs["v3"], "Vec."+fn.Sel.Name, &recv, x.Args, e)
-		case kM22, kM33, kM44:
+		case kM22, kM33, kM44, kBox2, kBox3:
 			return f.callDef(x, f.g.pkgs["sdf"], recv.t.goName()+"."+fn.Sel.Name, &recv, x.Args, e)
 		}
 		return val{}, f.errf(x, "method %s on %s", fn.Sel.Name, recv.t.goName())
 	}
 	return val{}, f.errf(x, "unsupported call %s", exprString(x.Fun))
+}
+
+// composite literal of a vector, box or slice type (implied = element type of an enclosing slice literal)
+func (f *fctx) composite(x *ast.CompositeLit, implied *typ, e env) (val, error) {
+	var t typ
+	if x.Type != nil {
+		var err error
+		if t, err = f.goType(x.Type); err != nil {
+			return val{}, f.errf(x, "%v", err)
+		}
+	} else if implied != nil {
+		t = *implied
+	} else {
+		return val{}, f.errf(x, "composite literal without a type")
+	}
+	for _, el := range x.Elts {
+		if _, keyed := el.(*ast.KeyValueExpr); keyed {
+			return val{}, f.errf(x, "keyed %s literal", t.goName())
+		}
+	}
+	elem := func(el ast.Expr, want typ) (string, error) {
+		var v val
+		var err error
+		if cl, ok := el.(*ast.CompositeLit); ok && cl.Type == nil {
+			v, err = f.composite(cl, &want, e)
+		} else {
+			v, err = f.expr(el, e)
+		}
+		if err != nil {
+			return "", err
+		}
+		if !v.t.eq(want) {
+			return "", f.errf(el, "element of type %s in a %s literal", v.t.goName(), t.goName())
+		}
+		return v.s, nil
+	}
+	if t.k == kList {
+		var es []string
+		for _, el := range x.Elts {
+			s, err := elem(el, t.args[0])
+			if err != nil {
+				return val{}, err
+			}
+			es = append(es, s)
+		}
+		return val{s: "[" + strings.Join(es, "; ") + "]", t: t}, nil
+	}
+	shape, ok := map[kind]struct {
+		mk string
+		n  int
+		el typ
+	}{kV2: {"mkV2", 2, tT}, kV3: {"mkV3", 3, tT}, kBox2: {"mkBox2", 2, tV2}, kBox3: {"mkBox3", 2, tV3}}[t.k]
+	if !ok {
+		return val{}, f.errf(x, "composite literal of %s", t.goName())
+	}
+	if len(x.Elts) != shape.n {
+		return val{}, f.errf(x, "%s literal with %d elements (partial literals are not modelled)", t.goName(), len(x.Elts))
+	}
+	var es []string
+	for _, el := range x.Elts {
+		s, err := elem(el, shape.el)
+		if err != nil {
+			return val{}, err
+		}
+		es = append(es, s)
+	}
+	return val{s: "(" + shape.mk + " " + strings.Join(es, " ") + ")", t: t}, nil
 }
 
 func (f *fctx) expr(e0 ast.Expr, e env) (val, error) {
@@ -784,10 +1021,13 @@ func (f *fctx) expr(e0 ast.Expr, e env) (val, error) {
 		return val{s: s, t: tT, konst: true, rat: r}, nil
 	case *ast.Ident:
 		if b, ok := e[x.Name]; ok {
+			if b.fields != nil {
+				return val{}, f.errf(x, "struct %s used as a value", x.Name)
+			}
 			if b.zero {
 				return val{s: "(o0 O)", t: b.t}, nil
 			}
-			return val{s: b.coq, t: b.t}, nil
+			return val{s: b.coq, t: b.t, bb: b.bb}, nil
 		}
 		if x.Name == f.recv && f.recv != "" {
 			return val{}, f.errf(x, "receiver %s used as a value", x.Name)
@@ -799,6 +1039,14 @@ func (f *fctx) expr(e0 ast.Expr, e env) (val, error) {
 		if _, ok := f.p.consts[x.Name]; ok {
 			return f.g.constant(f.p, x.Name)
 		}
+		if fd, ok := f.p.funcs[x.Name]; ok && fd.Recv == nil {
+			// a package-level function used as a value (s.extrude = NormalExtrude)
+			d, err := f.g.translate(f.p, x.Name)
+			if err != nil {
+				return val{}, err
+			}
+			return val{s: d.Name, t: fnType(d.ret, d.params...)}, nil
+		}
 		return val{}, f.errf(x, "unknown identifier %s", x.Name)
 	case *ast.SelectorExpr:
 		if id, ok := x.X.(*ast.Ident); ok {
@@ -809,12 +1057,19 @@ func (f *fctx) expr(e0 ast.Expr, e env) (val, error) {
 				if ip == "math" && x.Sel.Name == "MaxFloat64" {
 					return val{s: "(omaxf O)", t: tT, konst: true}, nil
 				}
+				if m, ok := mathFns[x.Sel.Name]; ok && ip == "math" {
+					// math.Max as a function value (s.max = math.Max)
+					return val{s: "(" + m.op + " O)", t: fnType(tT, []typ{tT, tT}[:m.n]...)}, nil
+				}
 				if q := f.g.byPath[ip]; q != nil {
 					if _, ok := q.consts[x.Sel.Name]; ok {
 						return f.g.constant(q, x.Sel.Name)
 					}
 				}
 				return val{}, f.errf(x, "unsupported %s.%s", id.Name, x.Sel.Name)
+			}
+			if b, ok := e[id.Name]; ok && b.fields != nil {
+				return f.builtField(x, b, id.Name, x.Sel.Name)
 			}
 			if id.Name == f.recv && f.recv != "" {
 				if _, shadow := e[id.Name]; !shadow {
@@ -827,6 +1082,21 @@ func (f *fctx) expr(e0 ast.Expr, e env) (val, error) {
 			return val{}, err
 		}
 		return f.field(x, v, x.Sel.Name)
+	case *ast.IndexExpr:
+		a, err := f.expr(x.X, e)
+		if err != nil {
+			return val{}, err
+		}
+		lit, ok := x.Index.(*ast.BasicLit)
+		size := map[kind]int{kM22: 4, kM33: 9, kM44: 16}[a.t.k]
+		if !ok || lit.Kind != token.INT || size == 0 {
+			return val{}, f.errf(x, "unsupported index expression")
+		}
+		i, err := strconv.Atoi(lit.Value)
+		if err != nil || i < 0 || i >= size {
+			return val{}, f.errf(x, "index %s out of range for %s", lit.Value, a.t.goName())
+		}
+		return val{s: fmt.Sprintf("(nth %d %s (o0 O))", i, a.s), t: tT}, nil
 	case *ast.UnaryExpr:
 		v, err := f.expr(x.X, e)
 		if err != nil {
@@ -846,6 +1116,24 @@ func (f *fctx) expr(e0 ast.Expr, e env) (val, error) {
 		}
 		return val{}, f.errf(x, "unsupported unary %s on %s", x.Op, v.t.goName())
 	case *ast.BinaryExpr:
+		if (x.Op == token.EQL || x.Op == token.NEQ) && (isNil(x.X, e) || isNil(x.Y, e)) {
+			// sdf == nil: wrapped SDF arguments are assumed non-nil (as the model does)
+			other := x.X
+			if isNil(x.X, e) {
+				other = x.Y
+			}
+			v, err := f.expr(other, e)
+			if err != nil {
+				return val{}, err
+			}
+			if !v.t.iface {
+				return val{}, f.errf(x, "comparison of %s with nil", v.t.goName())
+			}
+			if x.Op == token.EQL {
+				return val{s: "false", t: tBool}, nil
+			}
+			return val{s: "true", t: tBool}, nil
+		}
 		a, err := f.expr(x.X, e)
 		if err != nil {
 			return val{}, err
@@ -856,35 +1144,7 @@ func (f *fctx) expr(e0 ast.Expr, e env) (val, error) {
 		}
 		return f.binary(x, x.Op, a, b)
 	case *ast.CompositeLit:
-		if x.Type == nil {
-			return val{}, f.errf(x, "composite literal without a type")
-		}
-		t, err := f.goType(x.Type)
-		if err != nil {
-			return val{}, f.errf(x, "%v", err)
-		}
-		n, mk := map[kind]int{kV2: 2, kV3: 3}[t.k], map[kind]string{kV2: "mkV2", kV3: "mkV3"}[t.k]
-		if n == 0 {
-			return val{}, f.errf(x, "composite literal of %s", t.goName())
-		}
-		if len(x.Elts) != n {
-			return val{}, f.errf(x, "%s literal with %d elements (keyed or partial literals are not modelled)", t.goName(), len(x.Elts))
-		}
-		var es []string
-		for _, el := range x.Elts {
-			if _, keyed := el.(*ast.KeyValueExpr); keyed {
-				return val{}, f.errf(x, "keyed %s literal", t.goName())
-			}
-			v, err := f.expr(el, e)
-			if err != nil {
-				return val{}, err
-			}
-			if v.t.k != kT {
-				return val{}, f.errf(el, "non-scalar element in a vector literal")
-			}
-			es = append(es, v.s)
-		}
-		return val{s: "(" + mk + " " + strings.Join(es, " ") + ")", t: t}, nil
+		return f.composite(x, nil, e)
 	case *ast.CallExpr:
 		return f.call(x, e)
 	case *ast.FuncLit:
@@ -893,7 +1153,7 @@ func (f *fctx) expr(e0 ast.Expr, e env) (val, error) {
 	return val{}, f.errf(e0, "unsupported expression %T", e0)
 }
 
-func (f *fctx) bindParams(n ast.Node, fl *ast.FieldList, e env, seen map[string]string) ([]Param, []typ, error) {
+func (f *fctx) bindParams(fl *ast.FieldList, e env) ([]Param, []typ, error) {
 	var ps []Param
 	var ts []typ
 	for _, p := range fl.List {
@@ -906,8 +1166,13 @@ func (f *fctx) bindParams(n ast.Node, fl *ast.FieldList, e env, seen map[string]
 		}
 		for _, nm := range p.Names {
 			c := coqIdent(nm.Name)
-			e[nm.Name] = &binding{coq: c, t: t}
+			b := &binding{coq: c, t: t}
 			ps = append(ps, Param{c, t.coq()})
+			if t.iface {
+				b.bb = c + "_bb"
+				ps = append(ps, Param{b.bb, boxOf(t.args[0]).coq()})
+			}
+			e[nm.Name] = b
 			ts = append(ts, t)
 		}
 	}
@@ -927,8 +1192,13 @@ func (f *fctx) funcLit(x *ast.FuncLit, e env) (val, error) {
 	if err != nil {
 		return val{}, f.errf(x, "%v", err)
 	}
+	for _, a := range t.args {
+		if a.iface {
+			return val{}, f.errf(x, "closure with an SDF parameter")
+		}
+	}
 	inner := e.clone()
-	ps, _, err := f.bindParams(x, x.Type.Params, inner, nil)
+	ps, _, err := f.bindParams(x.Type.Params, inner)
 	if err != nil {
 		return val{}, err
 	}
@@ -939,6 +1209,186 @@ func (f *fctx) funcLit(x *ast.FuncLit, e env) (val, error) {
 		return val{}, err
 	}
 	return val{s: "(fun " + binders(ps) + " =>\n" + body + ")", t: t}, nil
+}
+
+// ---------------------------------------------------------------- constructors
+
+// the SDF object a finished struct stands for: (T.Evaluate fields, T.BoundingBox fields)
+func (f *fctx) pack(n ast.Node, b *binding, goVar string, pt typ) (string, error) {
+	part := func(method string, want typ) (string, error) {
+		d, err := f.g.translate(f.p, b.structName+"."+method)
+		if err != nil {
+			return "", err
+		}
+		var args []string
+		for _, fn := range d.fields {
+			v, err := f.builtField(n, b, goVar, fn)
+			if err != nil {
+				return "", err
+			}
+			args = append(args, v.s)
+		}
+		got := d.ret
+		if len(d.params) != 0 {
+			got = fnType(d.ret, d.params...)
+		}
+		if !got.eq(want) {
+			return "", f.errf(n, "%s.%s has type %s, expected %s", b.structName, method, got.goName(), want.goName())
+		}
+		return app(d.Name, args), nil
+	}
+	ev, err := part("Evaluate", fnType(tT, pt))
+	if err != nil {
+		return "", err
+	}
+	bb, err := part("BoundingBox", boxOf(pt))
+	if err != nil {
+		return "", err
+	}
+	return "Some (" + ev + ", " + bb + ")", nil
+}
+
+// T{} / T{f: e, ..} of a struct type of this package: the lets binding its fields, and the struct binding
+func (f *fctx) structLit(x *ast.CompositeLit, goVar string, e env, ind string) (string, *binding, error) {
+	id, ok := x.Type.(*ast.Ident)
+	if !ok || f.p.structs[id.Name] == nil {
+		return "", nil, f.errf(x, "not a struct literal of this package")
+	}
+	b := &binding{coq: coqIdent(goVar), structName: id.Name, fields: map[string]*binding{}}
+	var lets strings.Builder
+	for _, el := range x.Elts {
+		kv, ok := el.(*ast.KeyValueExpr)
+		if !ok {
+			return "", nil, f.errf(x, "positional %s literal", id.Name)
+		}
+		key, ok := kv.Key.(*ast.Ident)
+		if !ok {
+			return "", nil, f.errf(x, "unsupported key in %s literal", id.Name)
+		}
+		l, err := f.setField(kv, b, goVar, key.Name, kv.Value, e, ind)
+		if err != nil {
+			return "", nil, err
+		}
+		lets.WriteString(l)
+	}
+	return lets.String(), b, nil
+}
+
+// s.name = rhs on a struct under construction: `let s_name := rhs in`
+func (f *fctx) setField(n ast.Node, b *binding, goVar, name string, rhs ast.Expr, e env, ind string) (string, error) {
+	ft, ok, err := f.g.structField(f.p, b.structName, name)
+	if err != nil || !ok {
+		return "", f.errf(n, "field %s.%s: %v", b.structName, name, err)
+	}
+	v, err := f.expr(rhs, e)
+	if err != nil {
+		return "", err
+	}
+	if !v.t.eq(ft) {
+		return "", f.errf(n, "assignment of %s to field %s.%s of type %s", v.t.goName(), goVar, name, ft.goName())
+	}
+	c := b.coq + "_" + name
+	b.fields[name] = &binding{coq: c, t: ft, bb: v.bb}
+	return ind + "let " + c + " := " + v.s + " in\n", nil
+}
+
+// is the call a call of a constructor of this package (a function returning SDF2/SDF3[, error])?
+func (f *fctx) ctorCall(x ast.Expr, e env) (*ast.CallExpr, bool) {
+	c, ok := x.(*ast.CallExpr)
+	if !ok {
+		return nil, false
+	}
+	id, ok := c.Fun.(*ast.Ident)
+	if !ok {
+		return nil, false
+	}
+	if _, local := e[id.Name]; local {
+		return nil, false
+	}
+	fd, ok := f.p.funcs[id.Name]
+	if !ok || fd.Recv != nil {
+		return nil, false
+	}
+	_, isCtor := f.g.ctorResult(f.p, f.p.fileOf[id.Name], fd)
+	return c, isCtor
+}
+
+// result list (SDFn) or (SDFn, error)
+func (g *gen) ctorResult(p *pkg, sf *srcFile, fd *ast.FuncDecl) (typ, bool) {
+	if fd.Type.Results == nil {
+		return typ{}, false
+	}
+	var ts []ast.Expr
+	for _, r := range fd.Type.Results.List {
+		if len(r.Names) != 0 {
+			return typ{}, false
+		}
+		ts = append(ts, r.Type)
+	}
+	if len(ts) == 2 {
+		if id, ok := ts[1].(*ast.Ident); !ok || id.Name != "error" {
+			return typ{}, false
+		}
+	} else if len(ts) != 1 {
+		return typ{}, false
+	}
+	t, err := g.goType(p, sf, ts[0])
+	if err != nil || !t.iface {
+		return typ{}, false
+	}
+	return objOptType(t.args[0]), true
+}
+
+func (f *fctx) ctorReturn(s *ast.ReturnStmt, e env, want typ, ind string) (string, error) {
+	if len(s.Results) < 1 || len(s.Results) > 2 {
+		return "", f.errf(s, "return of %d values from a constructor", len(s.Results))
+	}
+	if len(s.Results) == 2 && !isNil(s.Results[1], e) {
+		// the error value: ErrMsg(..), errors.New(..), fmt.Errorf(..) - only nil-ness matters
+		if _, ok := s.Results[1].(*ast.CallExpr); !ok || !isNil(s.Results[0], e) {
+			return "", f.errf(s, "unsupported error result")
+		}
+	}
+	r := s.Results[0]
+	if isNil(r, e) {
+		return ind + "None", nil
+	}
+	if c, ok := f.ctorCall(r, e); ok {
+		// return Extrude3D(sdf, height), nil / return Cylinder3D(h, r, r): the callee's result
+		v, err := f.callDef(c, f.p, c.Fun.(*ast.Ident).Name, nil, c.Args, e)
+		if err != nil {
+			return "", err
+		}
+		if !v.t.eq(want) {
+			return "", f.errf(s, "return of %s, expected %s", v.t.goName(), want.goName())
+		}
+		return ind + v.s, nil
+	}
+	if u, ok := r.(*ast.UnaryExpr); ok && u.Op == token.AND {
+		switch x := u.X.(type) {
+		case *ast.Ident:
+			if b, ok := e[x.Name]; ok && b.fields != nil {
+				o, err := f.pack(s, b, x.Name, want.args[0])
+				return ind + o, err
+			}
+		case *ast.CompositeLit:
+			lets, b, err := f.structLit(x, "s", e, ind)
+			if err != nil {
+				return "", err
+			}
+			o, err := f.pack(s, b, "s", want.args[0])
+			return lets + ind + o, err
+		}
+		return "", f.errf(s, "unsupported constructor result &%s", exprString(u.X))
+	}
+	v, err := f.expr(r, e)
+	if err != nil {
+		return "", err
+	}
+	if !v.t.iface || !v.t.args[0].eq(want.args[0]) || v.bb == "" {
+		return "", f.errf(s, "unsupported constructor result of type %s", v.t.goName())
+	}
+	return ind + "Some (" + v.s + ", " + v.bb + ")", nil
 }
 
 // ---------------------------------------------------------------- statements
@@ -988,6 +1438,7 @@ func containsReturn(list []ast.Stmt) bool {
 }
 
 // variables of the enclosing scopes assigned by the list, in order of first assignment
+// (an assignment to a field s.f counts as "s.f": not supported inside branches)
 func assignedOuter(list []ast.Stmt, declared map[string]bool, out *[]string) {
 	local := map[string]bool{}
 	for k := range declared {
@@ -1005,12 +1456,15 @@ func assignedOuter(list []ast.Stmt, declared map[string]bool, out *[]string) {
 		switch x := s.(type) {
 		case *ast.AssignStmt:
 			for _, l := range x.Lhs {
-				if id, ok := l.(*ast.Ident); ok {
+				switch id := l.(type) {
+				case *ast.Ident:
 					if x.Tok == token.DEFINE {
 						local[id.Name] = true
 					} else if !local[id.Name] {
 						add(id.Name)
 					}
+				default:
+					add(exprString(l))
 				}
 			}
 		case *ast.DeclStmt:
@@ -1107,12 +1561,98 @@ func (f *fctx) stmts(list []ast.Stmt, e env, tl *tail, ind string) (string, erro
 		return f.stmts(rest, e, tl, ind)
 
 	case *ast.AssignStmt:
-		if len(s.Lhs) != 1 || len(s.Rhs) != 1 {
-			return "", f.errf(s, "unsupported tuple assignment")
+		if len(s.Lhs) != len(s.Rhs) {
+			return "", f.errf(s, "unsupported assignment of a multi-valued expression")
+		}
+		if len(s.Lhs) > 1 {
+			// a, b = e1, e2: all right-hand sides are evaluated before any assignment
+			if s.Tok != token.ASSIGN && s.Tok != token.DEFINE {
+				return "", f.errf(s, "unsupported tuple assignment operator %s", s.Tok)
+			}
+			var vs []val
+			for _, r := range s.Rhs {
+				v, err := f.expr(r, e)
+				if err != nil {
+					return "", err
+				}
+				vs = append(vs, v)
+			}
+			var names, rhs []string
+			seen := map[string]bool{}
+			for i, l := range s.Lhs {
+				id, ok := l.(*ast.Ident)
+				if !ok || id.Name == "_" || seen[id.Name] {
+					return "", f.errf(s, "unsupported tuple assignment target %s", exprString(l))
+				}
+				seen[id.Name] = true
+				b, exists := e[id.Name]
+				if s.Tok == token.DEFINE && !exists {
+					b = &binding{coq: coqIdent(id.Name), t: vs[i].t}
+					e[id.Name] = b
+				} else if !exists || b.fields != nil {
+					return "", f.errf(s, "assignment to %s, which is not a local variable", id.Name)
+				}
+				if !b.t.eq(vs[i].t) {
+					return "", f.errf(s, "assignment of %s to %s %s", vs[i].t.goName(), b.t.goName(), id.Name)
+				}
+				b.zero, b.bb = false, vs[i].bb
+				names, rhs = append(names, b.coq), append(rhs, vs[i].s)
+			}
+			if tl != nil {
+				return "", f.errf(s, "tuple assignment inside a branch")
+			}
+			r, err := f.stmts(rest, e, tl, ind)
+			if err != nil {
+				return "", err
+			}
+			return ind + "let '(" + strings.Join(names, ", ") + ") := (" + strings.Join(rhs, ", ") + ") in\n" + r, nil
+		}
+		if sel, ok := s.Lhs[0].(*ast.SelectorExpr); ok {
+			// s.f = e on a struct under construction
+			id, ok := sel.X.(*ast.Ident)
+			var b *binding
+			if ok {
+				b = e[id.Name]
+			}
+			if b == nil || b.fields == nil || s.Tok != token.ASSIGN {
+				return "", f.errf(s, "unsupported assignment target %s", exprString(s.Lhs[0]))
+			}
+			if tl != nil {
+				return "", f.errf(s, "field assignment inside a branch")
+			}
+			l, err := f.setField(s, b, id.Name, sel.Sel.Name, s.Rhs[0], e, ind)
+			if err != nil {
+				return "", err
+			}
+			r, err := f.stmts(rest, e, tl, ind)
+			if err != nil {
+				return "", err
+			}
+			return l + r, nil
 		}
 		id, ok := s.Lhs[0].(*ast.Ident)
 		if !ok || id.Name == "_" {
 			return "", f.errf(s, "unsupported assignment target %s", exprString(s.Lhs[0]))
+		}
+		if cl, ok := s.Rhs[0].(*ast.CompositeLit); ok && s.Tok == token.DEFINE {
+			if tid, ok := cl.Type.(*ast.Ident); ok && f.p.structs[tid.Name] != nil && f.results[0].k == kObjOpt {
+				if _, isVec := map[string]bool{"Box2": true, "Box3": true, "Vec": true}[tid.Name]; !isVec {
+					// s := T{..}: a struct under construction
+					if tl != nil {
+						return "", f.errf(s, "struct construction inside a branch")
+					}
+					lets, b, err := f.structLit(cl, id.Name, e, ind)
+					if err != nil {
+						return "", err
+					}
+					e[id.Name] = b
+					r, err := f.stmts(rest, e, tl, ind)
+					if err != nil {
+						return "", err
+					}
+					return lets + r, nil
+				}
+			}
 		}
 		v, err := f.expr(s.Rhs[0], e)
 		if err != nil {
@@ -1120,10 +1660,10 @@ func (f *fctx) stmts(list []ast.Stmt, e env, tl *tail, ind string) (string, erro
 		}
 		switch {
 		case s.Tok == token.DEFINE:
-			e[id.Name] = &binding{coq: coqIdent(id.Name), t: v.t}
+			e[id.Name] = &binding{coq: coqIdent(id.Name), t: v.t, bb: v.bb}
 		case s.Tok == token.ASSIGN || opAssign[s.Tok] != 0:
 			b, ok := e[id.Name]
-			if !ok {
+			if !ok || b.fields != nil {
 				return "", f.errf(s, "assignment to %s, which is not a local variable", id.Name)
 			}
 			if op, isOp := opAssign[s.Tok]; isOp {
@@ -1138,6 +1678,9 @@ func (f *fctx) stmts(list []ast.Stmt, e env, tl *tail, ind string) (string, erro
 			if !b.t.eq(v.t) {
 				return "", f.errf(s, "assignment of %s to %s %s", v.t.goName(), b.t.goName(), id.Name)
 			}
+			if b.t.iface {
+				return "", f.errf(s, "re-assignment of the SDF variable %s", id.Name)
+			}
 			b.zero = false
 		default:
 			return "", f.errf(s, "unsupported assignment operator %s", s.Tok)
@@ -1149,6 +1692,11 @@ func (f *fctx) stmts(list []ast.Stmt, e env, tl *tail, ind string) (string, erro
 		if err != nil {
 			return "", err
 		}
+		if v.t.iface {
+			// an SDF value is two names; `x := sdf` is an alias
+			e[id.Name].coq, e[id.Name].bb = v.s, v.bb
+			return r, nil
+		}
 		return ind + "let " + e[id.Name].coq + " := " + v.s + " in\n" + r, nil
 
 	case *ast.ReturnStmt:
@@ -1158,6 +1706,10 @@ func (f *fctx) stmts(list []ast.Stmt, e env, tl *tail, ind string) (string, erro
 		if len(rest) != 0 {
 			return "", f.errf(rest[0], "statement after return")
 		}
+		want := f.results[len(f.results)-1]
+		if want.k == kObjOpt {
+			return f.ctorReturn(s, e, want, ind)
+		}
 		if len(s.Results) != 1 {
 			return "", f.errf(s, "return of %d values", len(s.Results))
 		}
@@ -1165,7 +1717,6 @@ func (f *fctx) stmts(list []ast.Stmt, e env, tl *tail, ind string) (string, erro
 		if err != nil {
 			return "", err
 		}
-		want := f.results[len(f.results)-1]
 		if !v.t.eq(want) {
 			return "", f.errf(s, "return of %s, expected %s", v.t.goName(), want.goName())
 		}
@@ -1239,8 +1790,8 @@ func (f *fctx) stmts(list []ast.Stmt, e env, tl *tail, ind string) (string, erro
 				return "", f.errf(s, "if statement without effect")
 			}
 			for _, v := range vars {
-				if _, ok := e[v]; !ok {
-					return "", f.errf(s, "assignment to %s, which is not a local variable", v)
+				if b, ok := e[v]; !ok || b.fields != nil || b.t.iface {
+					return "", f.errf(s, "assignment to %s inside a branch: not a plain local variable", v)
 				}
 			}
 			t := &tail{vars}
@@ -1347,7 +1898,8 @@ func (g *gen) translate(p *pkg, key string) (*Def, error) {
 		rt, err := g.namedType(p, rn)
 		names := fd.Recv.List[0].Names
 		switch {
-		case err == nil && (rt.k == kV2 || rt.k == kV3):
+		case err == nil && rt.k != kFn:
+			// a value receiver (vector, box, matrix): an ordinary parameter
 			if len(names) != 1 {
 				return nil, f.errf(fd, "unnamed receiver")
 			}
@@ -1364,16 +1916,20 @@ func (g *gen) translate(p *pkg, key string) (*Def, error) {
 			return nil, f.errf(fd, "receiver type %s", rn)
 		}
 	}
-	ps, ts, err := f.bindParams(fd, fd.Type.Params, e, nil)
+	ps, ts, err := f.bindParams(fd.Type.Params, e)
 	if err != nil {
 		return nil, err
 	}
-	if fd.Type.Results == nil || len(fd.Type.Results.List) != 1 || len(fd.Type.Results.List[0].Names) != 0 {
-		return nil, f.errf(fd, "expected exactly one unnamed result")
-	}
-	rt, err := f.goType(fd.Type.Results.List[0].Type)
-	if err != nil {
-		return nil, f.errf(fd, "%v", err)
+	rt, isCtor := g.ctorResult(p, f.file, fd)
+	if !isCtor {
+		if fd.Type.Results == nil || len(fd.Type.Results.List) != 1 || len(fd.Type.Results.List[0].Names) != 0 {
+			return nil, f.errf(fd, "expected exactly one unnamed result")
+		}
+		if rt, err = f.goType(fd.Type.Results.List[0].Type); err != nil {
+			return nil, f.errf(fd, "%v", err)
+		}
+	} else if fd.Recv != nil {
+		return nil, f.errf(fd, "method returning an SDF")
 	}
 	f.results = []typ{rt}
 	body, err := f.stmts(fd.Body.List, e, nil, "    ")
@@ -1381,18 +1937,18 @@ func (g *gen) translate(p *pkg, key string) (*Def, error) {
 		return nil, err
 	}
 	// receiver fields used, in the order the struct declares them, come first
+	var fields []string
 	if f.recvStruct != "" {
 		var fps []Param
-		var fts []typ
 		for _, fl := range p.structs[f.recvStruct].Fields.List {
 			for _, n := range fl.Names {
 				if t, ok := f.used[n.Name]; ok {
 					fps = append(fps, Param{"s_" + n.Name, t.coq()})
-					fts = append(fts, t)
+					fields = append(fields, n.Name)
 				}
 			}
 		}
-		params, ptypes = append(fps, params...), append(fts, ptypes...)
+		params = append(fps, params...)
 	}
 	params, ptypes = append(params, ps...), append(ptypes, ts...)
 	seen := map[string]bool{}
@@ -1404,7 +1960,7 @@ func (g *gen) translate(p *pkg, key string) (*Def, error) {
 	}
 	pos := g.fset.Position(fd.Pos())
 	d := &Def{Pkg: p.name, Key: key, Name: defName(p.name, key), Pos: fmt.Sprintf("%s:%d", f.file.rel, pos.Line),
-		Params: params, Ret: rt.coq(), ret: rt, params: ptypes}
+		Params: params, Ret: rt.coq(), ret: rt, params: ptypes, fields: fields}
 	goSig := "func " + key
 	if fd.Recv != nil {
 		rn, ptr := recvTypeName(fd)
@@ -1444,7 +2000,7 @@ func Translate(repo string) (*Result, error) {
 	}{
 		{"v2", modPath + "vec/v2", []string{"vec/v2/v2.go"}},
 		{"v3", modPath + "vec/v3", []string{"vec/v3/v3.go"}},
-		{"sdf", modPath + "sdf", []string{"sdf/utils.go", "sdf/sdf2.go", "sdf/sdf3.go"}},
+		{"sdf", modPath + "sdf", []string{"sdf/utils.go", "sdf/sdf2.go", "sdf/sdf3.go", "sdf/box2.go", "sdf/box3.go", "sdf/matrix.go"}},
 	} {
 		p, err := loadPkg(g.fset, repo, s.name, s.path, s.files...)
 		if err != nil {
@@ -1455,9 +2011,13 @@ func Translate(repo string) (*Result, error) {
 	// sdf/matrix.go functions translated by harness/exprgen into Generated/MatrixExpr.v
 	g.externs = map[string]extern{
 		"sdf.Rotate":          {"mk_rotate", []typ{tT}, tM22},
+		"sdf.Scale2d":         {"mk_scale2d", []typ{tV2}, tM33},
+		"sdf.Scale3d":         {"mk_scale3d", []typ{tV3}, tM44},
 		"sdf.M22.MulPosition": {"m22_mulposition", []typ{tM22, tV2}, tV2},
 		"sdf.M33.MulPosition": {"m33_mulposition", []typ{tM33, tV2}, tV2},
 		"sdf.M44.MulPosition": {"m44_mulposition", []typ{tM44, tV3}, tV3},
+		"sdf.M33.Inverse":     {"m33_inverse", []typ{tM33}, tM33},
+		"sdf.M44.Inverse":     {"m44_inverse", []typ{tM44}, tM44},
 	}
 	for _, t := range Targets() {
 		if _, err := g.translate(g.pkgs[t.Pkg], t.Key); err != nil {
@@ -1465,11 +2025,15 @@ func Translate(repo string) (*Result, error) {
 		}
 	}
 	var b strings.Builder
-	b.WriteString("(* GENERATED by harness/sdfgen from vec/v2/v2.go, vec/v3/v3.go, sdf/utils.go, sdf/sdf2.go, sdf/sdf3.go\n")
-	b.WriteString("   of the current source tree - do not edit.  One definition per Go function, one `let` per Go\n")
-	b.WriteString("   statement; receiver fields s.f are the parameters s_f; wrapped SDFs are function parameters.\n")
-	b.WriteString("   Sdf/GenEq.v proves these equal to the hand-written model (Geo/Vec.v, Sdf/Union2.v, Sdf/Shape.v). *)\n")
-	b.WriteString("From Coq Require Import ZArith List Bool.\nFrom Sdfx Require Import Num.Ops Geo.Vec Generated.MatrixExpr.\n")
+	b.WriteString("(* GENERATED by harness/sdfgen from vec/v2/v2.go, vec/v3/v3.go, sdf/utils.go, sdf/sdf2.go, sdf/sdf3.go,\n")
+	b.WriteString("   sdf/box2.go, sdf/box3.go, sdf/matrix.go (MulBox) of the current source tree - do not edit.\n")
+	b.WriteString("   One definition per Go function, one `let` per Go statement; receiver fields s.f are the\n")
+	b.WriteString("   parameters s_f; a wrapped SDF is its Evaluate function (in constructors: plus its bounding box\n")
+	b.WriteString("   x_bb); a constructor returns None where Go returns nil / an error and otherwise\n")
+	b.WriteString("   Some (Evaluate, BoundingBox) of the struct it built.\n")
+	b.WriteString("   Sdf/GenEq.v proves these equal to the hand-written model (Geo/Vec.v, Geo/Box.v, Geo/Mat.v,\n")
+	b.WriteString("   Sdf/Union2.v, Sdf/Shape.v). *)\n")
+	b.WriteString("From Coq Require Import ZArith List Bool.\nFrom Sdfx Require Import Num.Ops Geo.Vec Geo.Box Generated.MatrixExpr.\n")
 	b.WriteString("Import OpsNotations ListNotations.\nLocal Open Scope ops_scope.\n\nSection SdfExpr.\n  Context {O : Ops}.\n\n")
 	for _, d := range g.order {
 		b.WriteString(d.text)
